@@ -1140,10 +1140,20 @@ func (m *Machine) selectOp(fr *frame, instr *ssa.Select) Value {
 
 // ---------- access hooks (lockset instrumentation) ----------
 
-func (m *Machine) onRead(fr *frame, p *Value)  {}
-func (m *Machine) onWrite(fr *frame, p *Value) {}
+func (m *Machine) onRead(fr *frame, p *Value) {
+	if m.env["watch"] != nil {
+		m.recordAccess(fr, p, false)
+	}
+}
+
+func (m *Machine) onWrite(fr *frame, p *Value) {
+	if m.env["watch"] != nil {
+		m.recordAccess(fr, p, true)
+	}
+}
+
 func (m *Machine) onMapAccess(fr *frame, mp *Map, write bool) {
-	if h, ok := m.env["mapHook"].(func(*frame, *Map, bool)); ok {
-		h(fr, mp, write)
+	if m.env["watch"] != nil {
+		m.recordAccess(fr, mp, write)
 	}
 }
